@@ -3,7 +3,6 @@ package simcheck
 import (
 	"bytes"
 	"fmt"
-	"go/token"
 	"sort"
 	"strings"
 	"testing"
@@ -61,29 +60,13 @@ func newInterp(src string) (ir *fast.Interp, out *bytes.Buffer, err string) {
 }
 
 func installSchedHooks(s *sim.Sched) {
-	cfg := s.Cfg
-	if cfg.StmtYield {
-		fast.VerifHooks.Stmt = func(env *fast.Env, pos token.Pos) { s.Yield(sim.SiteStmt, false) }
-	}
-	if cfg.ProtoYield {
-		fast.VerifHooks.Yield = func(site int, goid uintptr) { s.Yield(sim.SiteProto+site, false) }
-	}
-	fast.VerifHooks.GoSpawn = s.Spawn
-	fast.VerifHooks.GoStart = s.Start
-	fast.VerifHooks.GoExit = s.Exit
+	hs.S = s
+	hs.StmtYield = s.Cfg.StmtYield
+	hs.ProtoYield = s.Cfg.ProtoYield
 }
 
 func clearHooks() {
-	fast.VerifHooks.Stmt = nil
-	fast.VerifHooks.EnvAlloc = nil
-	fast.VerifHooks.EnvFree = nil
-	fast.VerifHooks.EnvRecycle = nil
-	fast.VerifHooks.GoID = nil
-	fast.VerifHooks.Yield = nil
-	fast.VerifHooks.GoSpawn = nil
-	fast.VerifHooks.GoStart = nil
-	fast.VerifHooks.GoExit = nil
-	fast.VerifHooks.Growth = nil
+	hs = hookState{}
 }
 
 // runConcurrent executes spec once under the seeded scheduler, natively or interpreted.
@@ -119,7 +102,6 @@ func runConcurrent(t *testing.T, ch *sim.Choices, cfg sim.SchedConfig, interp bo
 			}
 			s.Run(spec.Native)
 		}
-		clearHooks()
 	})
 	clearHooks()
 	r.Outcome, r.EndState, r.Released = s.Outcome, s.EndState, s.Released
